@@ -180,8 +180,8 @@ def rule_ed_guard(ctx: RuleContext, p: Program, fns: list[FuncInfo], rid: str) -
         # text variables that come from a read: x = ...read()/read_text(); texts[k] = f.read()
         read_vars: set[str] = set()
         for a in walk_no_nested(fn.node):
-            if isinstance(a, ast.Assign) and isinstance(a.value, ast.Call) and isinstance(a.value.func, ast.Attribute) \
-                    and a.value.func.attr in ('read', 'read_text'):
+            if isinstance(a, ast.Assign) and any(isinstance(c, ast.Call) and isinstance(c.func, ast.Attribute)
+                                                 and c.func.attr in ('read', 'read_text', 'read_bytes') for c in ast.walk(a.value)):
                 t = a.targets[0]
                 read_vars.add(t.id if isinstance(t, ast.Name) else norm(t.value) if isinstance(t, ast.Subscript) else norm(t))
         for c, text in _write_sites(fn):
